@@ -120,17 +120,28 @@ def replay_one(job):
     except BaseException as e:  # loading a probe program must always work
         res["load_error"] = "%s: %s" % (type(e).__name__, e)
         return res
-    if not late and jid % 5 == 3:
-        p = api_built(p, Program)
+    if not late and jid % 5 in (3, 4):
+        try:
+            p = api_built(p, Program, twin=(jid % 5 == 4))
+        except BaseException as e:  # assembling the same program through the API must work as well
+            res["load_error"] = "(API-built) %s: %s" % (type(e).__name__, e)
+            return res
         res["api_built"] = True
+        if jid % 5 == 4:
+            tracer.reset()
+            EV = tracer.EV
     tracer.install()
     outcomes = []
     for call in hist:
         if call[0] == "add":
             from collections import OrderedDict
-            tmp = Program.from_source(late_src, libraries=("vprobe",))
-            for nm, cmd in tmp.commands.items():
-                p.add_command(type(cmd), nm, OrderedDict((a.name, a) for a in cmd.arguments), cmd.lineno)
+            try:
+                tmp = Program.from_source(late_src, libraries=("vprobe",))
+                for nm, cmd in tmp.commands.items():
+                    p.add_command(type(cmd), nm, OrderedDict((a.name, a) for a in cmd.arguments), cmd.lineno)
+            except BaseException as e:  # (the commands added later may refer to each other in any order)
+                res["load_error"] = "(add_command after a run) %s: %s" % (type(e).__name__, e)
+                return res
             tracer.install()
             EV.append({"ev": "add"})
             outcomes.append(("ok", "", ""))
@@ -190,25 +201,42 @@ def replay_one(job):
     return res
 
 
-def api_built(loaded, Program):
-    """the same program assembled through the API (Program.add_command with plain values, not parser arguments), in the same order: a reference to a
-    command that is already in the program is given as the Command OBJECT, a forward reference as its result name"""
+def api_built(loaded, Program, twin=False):
+    """the same program assembled through the API (Program.add_command with plain values, not parser arguments), in the same order.
+    twin=False: a reference to a command that is already in the program is given as the Command OBJECT, a forward reference as its result name.
+    twin=True: every reference is a result name, and the very same argument values (the same list objects) were first given to a second
+    Program, which has already run: what that program did with them is none of this program's business"""
     from collections import OrderedDict
 
-    p = Program(libraries=("vprobe",))
-
-    def plain(v, refs):
+    def plain(v):
         if type(v).__name__ in ("Argument", "ListArgument"):
             v = v.value
         if isinstance(v, list):
-            return [plain(x, refs) for x in v]
-        if refs and isinstance(v, str) and v in p.commands:
+            return [plain(x) for x in v]
+        return v
+
+    def objects(v, p):
+        if isinstance(v, list):
+            return [objects(x, p) for x in v]
+        if isinstance(v, str) and v in p.commands:
             return p.commands[v]
         return v
 
-    for nm, cmd in loaded.commands.items():
-        args = OrderedDict((a.name, plain(a, a.name[0] in "DLN" and a.name != "Null")) for a in cmd.arguments)
-        p.add_command(type(cmd), nm, args, cmd.lineno)
+    raw = [(nm, type(cmd), cmd.lineno, [(a.name, plain(a)) for a in cmd.arguments]) for nm, cmd in loaded.commands.items()]
+    if twin:
+        other = Program(libraries=("vprobe",))
+        for nm, cls, lineno, args in raw:
+            other.add_command(cls, nm, OrderedDict(args), lineno)
+        try:
+            other.run()
+        except BaseException:
+            pass
+    p = Program(libraries=("vprobe",))
+    for nm, cls, lineno, args in raw:
+        if twin:
+            p.add_command(cls, nm, OrderedDict(args), lineno)
+        else:
+            p.add_command(cls, nm, OrderedDict((k, objects(v, p) if k[0] in "DLN" and k != "Null" else v) for k, v in args), lineno)
     return p
 
 
